@@ -58,6 +58,15 @@ CHECKS["C05"] = dict(
     note="Bounds: (a) <= 4 tokens in <= 3 documents (6 thorough); (b) n <= 32 quick / 512 thorough, c symbolic. excluded_token_regex is outside (regular expressions); np.bincount is stubbed in (b).",
     ref="4/C05")
 
+CHECKS["C11"] = dict(
+    text="(a) Bounded symbolic model checking of one step of the real em_update_matrix from an arbitrary state: every subset of stored CSR cells, symbolic positive priors, arbitrary initial posterior, symbolic window contents and kernel weights - mass lands only in the target row's slice, sums to exactly one (zero when no context cell is stored), each cell receives kernel*prior/sum, and no access leaves the row (the array model's bounds check). One inductive step covers occurrence sequences of any length. (b) TokenCooccurrenceVectorizer with n_iter 0..2 and a symbolic epsilon in [0,1] against a dense implementation of the documented procedure, with the consequences (entries in [0,1], column sums <= 1, support non-increasing).",
+    note="Bounds: (a) vocabulary 2 (3 thorough), <= 2 windows of <= 2-3 contexts; (b) <= 3-4 tokens, radius <= 2. Non-linear real arithmetic decided by z3 (nlsat) without time-outs at these sizes. Other drivers share the kernel; float32 rounding outside.",
+    ref="4/C11")
+CHECKS["C14"] = dict(
+    text="Bounded symbolic model checking of masking on the real TokenCooccurrenceVectorizer and NgramVectorizer: with mask_string unset removed tokens are deleted (neighbours become adjacent), with mask_string set they are replaced in place so that window contents and distances are those of the masked sequence; the mask is exactly one extra vocabulary entry with the last index; with nullify_mask the mask row and all mask columns are zero and every other cell equals the masked computation without the mask's contributions - all against the reference written from the statement, for fit_transform, fit and transform.",
+    note="Bounds: <= 3-5 tokens, radius <= 2, excluded-token and min_occurrences pruning. Timed / multiset / n-gram co-occurrence and tree vectorizers share the code pattern but are not encoded (uncovered).",
+    ref="4/C14")
+
 NOT_YET = {}
 
 
